@@ -1736,12 +1736,12 @@ class LoopExpression(Expression):
 
         return " ".join(buf)
 
-    def _to_iter(self, obj: object) -> tuple[Iterator[Any], int]:
+    def _to_iter(self, obj: object) -> tuple[Iterable[Any], int]:
         if isinstance(obj, Mapping):
             return iter(obj.items()), len(obj)
         if isinstance(obj, range):
             try:
-                return iter(obj), len(obj)
+                return obj, len(obj)
             except OverflowError as err:
                 raise LiquidTypeError(
                     f"range '{self.iterable}' is too large", token=self.token
@@ -1765,7 +1765,7 @@ class LoopExpression(Expression):
 
     def _slice(
         self,
-        it: Iterator[object],
+        it: Iterable[object],
         length: int,
         context: RenderContext,
         *,
@@ -1777,8 +1777,8 @@ class LoopExpression(Expression):
         if limit is None and offset is None:
             context.stopindex(key=offset_key, index=length)
             if self.reversed:
-                return reversed(list(it)), length
-            return it, length
+                return self._reversed(it), length
+            return iter(it), length
 
         if offset == "continue":
             offset = context.stopindex(key=offset_key)
@@ -1793,11 +1793,17 @@ class LoopExpression(Expression):
 
         stop = offset + length if offset else length
         context.stopindex(key=offset_key, index=stop)
-        it = islice(it, offset, stop)
+        # A slice of a range is a range, which can be reversed without a copy.
+        it = it[offset:stop] if isinstance(it, range) else islice(it, offset, stop)
 
         if self.reversed:
-            return reversed(list(it)), length
-        return it, length
+            return self._reversed(it), length
+        return iter(it), length
+
+    def _reversed(self, it: Iterable[object]) -> Iterator[object]:
+        if isinstance(it, range):
+            return reversed(it)
+        return reversed(list(it))
 
     def evaluate(self, context: RenderContext) -> tuple[Iterator[object], int]:
         it, length = self._to_iter(self.iterable.evaluate(context))
